@@ -16,3 +16,72 @@ package types
 //@   ensures unknown: !ok ==> result == exported.Unknown
 //@   ensures expired: ok ==> (result == exported.Expired <==> ts + dur(self.TrustingPeriod) <= now())
 //@   ensures active:  ok ==> (result == exported.Active  <==> ts + dur(self.TrustingPeriod) > now())
+//@
+//@ subkeyfn ProcessedTimeKey(h) = tmProcessedTime(h.GetRevisionNumber(): u64, h.GetRevisionHeight(): u64)
+//@
+//@ // C08 (Tendermint / ICS-23): verification succeeds only if the proof height is not above the latest height, the
+//@ // consensus state and processed time of that height are stored, the time delay has elapsed, and the chained
+//@ // membership proof establishes `value` under [client prefix, protocol path] against the root recorded at that height.
+//@ spec tmVerified(cs: obj, S: store, c: str, now: Int, rev: u64, h: u64, proof: bytes, p1: str, value: str): bool
+//@ func (ClientState).VerifyPacketCommitment(ctx, store, cdc, height, proof, sourceChain, destChain, sequence, commitmentBytes) (err)
+//@   props C08
+//@   dyn height = clienttypes.Height
+//@   let c     = clientOf(store)
+//@   let co    = tibc[consState(c, height.RevisionNumber, height.RevisionHeight)]
+//@   let cobj  = clienttypes.consDecode(val(co))
+//@   let cons  = as(cobj, ConsensusState)
+//@   let pt    = tibc[tmProcessedTime(c, height.RevisionNumber, height.RevisionHeight)]
+//@   let mp    = pbdec_obj(commitmenttypes.MerkleProof, 0, str(proof))
+//@   ensures height.bound: err == nil ==> !(self.LatestHeight.RevisionNumber <u height.RevisionNumber || (self.LatestHeight.RevisionNumber == height.RevisionNumber && self.LatestHeight.RevisionHeight <u height.RevisionHeight))
+//@   ensures state.known:  err == nil ==> present(co) && clienttypes.decodesCons(val(co)) && isa(cobj, ConsensusState) && present(pt)
+//@   ensures delay:        err == nil ==> u64(pt) + self.TimeDelay <=u unixnano(now())
+//@   ensures [C08] delay.nowrap: err == nil ==> u64(pt) + self.TimeDelay >=u u64(pt)
+//@   ensures member:       err == nil ==> commitmenttypes.MerkleMember(mp, self.ProofSpecs, str(cons.Root.Hash), 2, str(self.MerklePrefix.KeyPrefix),
+//@                                          keyrepr(commit(sourceChain, destChain, sequence)), str(commitmentBytes))
+//@   ensures complete:     !(self.LatestHeight.RevisionNumber <u height.RevisionNumber || (self.LatestHeight.RevisionNumber == height.RevisionNumber && self.LatestHeight.RevisionHeight <u height.RevisionHeight))
+//@                         && proof != nil && pbvalid(commitmenttypes.MerkleProof, str(proof)) && len(self.MerklePrefix.KeyPrefix) != 0
+//@                         && present(co) && clienttypes.decodesCons(val(co)) && isa(cobj, ConsensusState) && present(pt) && u64(pt) + self.TimeDelay <=u unixnano(now())
+//@                         && commitmenttypes.MerkleMember(mp, self.ProofSpecs, str(cons.Root.Hash), 2, str(self.MerklePrefix.KeyPrefix), keyrepr(commit(sourceChain, destChain, sequence)), str(commitmentBytes))
+//@                         ==> err == nil
+//@
+//@ func (ClientState).VerifyPacketAcknowledgement(ctx, store, cdc, height, proof, sourceChain, destChain, sequence, ackBytes) (err)
+//@   props C08
+//@   dyn height = clienttypes.Height
+//@   let c     = clientOf(store)
+//@   let co    = tibc[consState(c, height.RevisionNumber, height.RevisionHeight)]
+//@   let cobj  = clienttypes.consDecode(val(co))
+//@   let cons  = as(cobj, ConsensusState)
+//@   let pt    = tibc[tmProcessedTime(c, height.RevisionNumber, height.RevisionHeight)]
+//@   let mp    = pbdec_obj(commitmenttypes.MerkleProof, 0, str(proof))
+//@   ensures height.bound: err == nil ==> !(self.LatestHeight.RevisionNumber <u height.RevisionNumber || (self.LatestHeight.RevisionNumber == height.RevisionNumber && self.LatestHeight.RevisionHeight <u height.RevisionHeight))
+//@   ensures state.known:  err == nil ==> present(co) && clienttypes.decodesCons(val(co)) && isa(cobj, ConsensusState) && present(pt)
+//@   ensures delay:        err == nil ==> u64(pt) + self.TimeDelay <=u unixnano(now())
+//@   ensures [C08] delay.nowrap: err == nil ==> u64(pt) + self.TimeDelay >=u u64(pt)
+//@   ensures member:       err == nil ==> commitmenttypes.MerkleMember(mp, self.ProofSpecs, str(cons.Root.Hash), 2, str(self.MerklePrefix.KeyPrefix),
+//@                                          keyrepr(ack(sourceChain, destChain, sequence)), str(ackBytes))
+//@   ensures complete:     !(self.LatestHeight.RevisionNumber <u height.RevisionNumber || (self.LatestHeight.RevisionNumber == height.RevisionNumber && self.LatestHeight.RevisionHeight <u height.RevisionHeight))
+//@                         && proof != nil && pbvalid(commitmenttypes.MerkleProof, str(proof)) && len(self.MerklePrefix.KeyPrefix) != 0
+//@                         && present(co) && clienttypes.decodesCons(val(co)) && isa(cobj, ConsensusState) && present(pt) && u64(pt) + self.TimeDelay <=u unixnano(now())
+//@                         && commitmenttypes.MerkleMember(mp, self.ProofSpecs, str(cons.Root.Hash), 2, str(self.MerklePrefix.KeyPrefix), keyrepr(ack(sourceChain, destChain, sequence)), str(ackBytes))
+//@                         ==> err == nil
+//@
+//@ func (ClientState).VerifyPacketCleanCommitment(ctx, store, cdc, height, proof, sourceChain, destChain, sequence) (err)
+//@   props C08
+//@   dyn height = clienttypes.Height
+//@   let c     = clientOf(store)
+//@   let co    = tibc[consState(c, height.RevisionNumber, height.RevisionHeight)]
+//@   let cobj  = clienttypes.consDecode(val(co))
+//@   let cons  = as(cobj, ConsensusState)
+//@   let pt    = tibc[tmProcessedTime(c, height.RevisionNumber, height.RevisionHeight)]
+//@   let mp    = pbdec_obj(commitmenttypes.MerkleProof, 0, str(proof))
+//@   ensures height.bound: err == nil ==> !(self.LatestHeight.RevisionNumber <u height.RevisionNumber || (self.LatestHeight.RevisionNumber == height.RevisionNumber && self.LatestHeight.RevisionHeight <u height.RevisionHeight))
+//@   ensures state.known:  err == nil ==> present(co) && clienttypes.decodesCons(val(co)) && isa(cobj, ConsensusState) && present(pt)
+//@   ensures delay:        err == nil ==> u64(pt) + self.TimeDelay <=u unixnano(now())
+//@   ensures [C08] delay.nowrap: err == nil ==> u64(pt) + self.TimeDelay >=u u64(pt)
+//@   ensures member:       err == nil ==> commitmenttypes.MerkleMember(mp, self.ProofSpecs, str(cons.Root.Hash), 2, str(self.MerklePrefix.KeyPrefix),
+//@                                          keyrepr(cleanPt(sourceChain, destChain)), enc64(sequence))
+//@   ensures complete:     !(self.LatestHeight.RevisionNumber <u height.RevisionNumber || (self.LatestHeight.RevisionNumber == height.RevisionNumber && self.LatestHeight.RevisionHeight <u height.RevisionHeight))
+//@                         && proof != nil && pbvalid(commitmenttypes.MerkleProof, str(proof)) && len(self.MerklePrefix.KeyPrefix) != 0
+//@                         && present(co) && clienttypes.decodesCons(val(co)) && isa(cobj, ConsensusState) && present(pt) && u64(pt) + self.TimeDelay <=u unixnano(now())
+//@                         && commitmenttypes.MerkleMember(mp, self.ProofSpecs, str(cons.Root.Hash), 2, str(self.MerklePrefix.KeyPrefix), keyrepr(cleanPt(sourceChain, destChain)), enc64(sequence))
+//@                         ==> err == nil
